@@ -62,6 +62,19 @@ def d1(cx: Cx, ob: Ob) -> None:
                     outer = _Ev("loop", loops[0].line, ctgt, csrc)
                     inner = _Ev("loop", loops[0].line, loops[0].a, ("attr", ctgt, "records"))
                     loops = (outer, inner)
+        if len(loops) == 1:
+            it1 = loops[0].b
+            if op(it1) == "new" and len(it1) > 4:
+                it1 = it1[4]
+            if op(it1) == "call" and it1[1] in (("builtin", "sorted"), ("builtin", "reversed")) and it1[2] and any(op(x) == "attr" and x[2] == "records" for x in subterms(it1[2][0])) and any(x == convs for x in subterms(it1[2][0])):
+                ob.violate(
+                    fn.qualname,
+                    where(fn, loops[0].line),
+                    f"chain folds the records of all converters in the order of `{show(it1)[:60]}`: a stable sort keeps the converters' order only among records with equal keys, so a later converter's record that sorts first becomes the canonical one - priority must follow the given order (earlier converters win)",
+                    witness="chain([c1 with uniprot (synonym UP), c2 with UP]): UP sorts before uniprot and becomes canonical",
+                    detail="order",
+                )
+                continue
         if len(loops) != 2:
             ob.undecide("chain's fold is not a two-level loop over converters and records")
             continue
